@@ -1075,6 +1075,13 @@ class Wtp:
         for page in self.get_all_pages([template_ns_id]):
             used_templates, pre_expand = check_template_func(self, page)
             for used_template in used_templates:
+                # Key by the title the name resolves to during expansion
+                # (the first letter may be written in lower case)
+                used_page = self.get_page(used_template, template_ns_id)
+                if used_page is not None:
+                    used_template = used_page.title.removeprefix(
+                        template_ns_local_name + ":"
+                    )
                 included_map[used_template].add(page.title)
             if pre_expand:
                 self.set_template_pre_expand(page.title)
